@@ -4485,7 +4485,20 @@ class Fparser2Reader():
                                           ("dim", Literal(str(idx),
                                                           integer_type))]))
             else:
-                loop.addchild(mask_shape[idx-1].upper.copy())
+                # The loop is over the *extent* of this dimension of the mask
+                # (upper - lower + 1), which is only the upper bound when
+                # the lower bound is unity.
+                bounds = mask_shape[idx-1]
+                if (isinstance(bounds.lower, Literal) and
+                        bounds.lower.value == "1"):
+                    loop.addchild(bounds.upper.copy())
+                else:
+                    extent = BinaryOperation.create(
+                        BinaryOperation.Operator.SUB,
+                        bounds.upper.copy(), bounds.lower.copy())
+                    loop.addchild(BinaryOperation.create(
+                        BinaryOperation.Operator.ADD, extent,
+                        Literal("1", integer_type)))
 
             # Add loop increment
             loop.addchild(Literal("1", integer_type))
